@@ -122,3 +122,18 @@ def printedTime (ver : Version) (midpoint : Nat) : Nat × Nat :=
   | .ietf => (midpoint, 0)
 
 end Rough.Client
+
+namespace Rough.Client
+
+/-- the client's main loop over its requests (`-n k`): responses are handled in request order; the
+    first failure aborts the process (nothing further is printed). Returns the outcomes printed and
+    whether the process ends with exit status 0. -/
+def runAll (S : SigScheme) (H : Bytes → Bytes) (ver : Version) (pubKey : Option Bytes) :
+    List (Bytes × Bytes × Bytes) → List Outcome × Bool
+  | [] => ([], true)
+  | (nonce, request, dg) :: rest =>
+    match handleResponse S H ver pubKey nonce request dg with
+    | .ok o => let (os, ok) := runAll S H ver pubKey rest; (o :: os, ok)
+    | _ => ([], false)
+
+end Rough.Client
